@@ -109,6 +109,15 @@ Msg(k) ==
   /\ cl' = [cl EXCEPT ![k].msgs = @ + 1]
   /\ UNCHANGED <<transport, srv, res>>
 
+(* environment: while the server sets up client k's connection, another user who may write into the connection
+   directory created one of the channel files first (and keeps it open).  "Files created for an accepted
+   connection ... are never more permissive than the mode it chose" cannot hold of a file somebody else created:
+   the server must not adopt it (adopted = 1: the descriptor the server went on with is the planted file). *)
+Plant(k, adopted) ==
+  /\ k \in Clients /\ cl[k].st # "idle"
+  /\ adopted = 0
+  /\ UNCHANGED vars
+
 (* environment: what exists under the server's prefix now *)
 Observe(S) ==
   /\ res' = S
